@@ -46,3 +46,24 @@ def replay(ctx, ob, inputs):
     if p.returncode == 0:
         return 'not-reproduced', 'inputs %r: native run passed\n%s' % (shown, out[-1000:])
     return 'inconclusive', 'inputs %r: exit %d\n%s' % (shown, p.returncode, out[-1000:])
+
+
+def run_program(ctx, name, src, extra_sources=(), defines=(), timeout=30):
+    """compile a fixed native reproducer against the real sources of the working tree and run it.
+    verdict 'reproduced' when it fails (non-zero exit, signal or time-out)."""
+    wd = os.path.join(ctx.scratch, 'native_' + name)
+    os.makedirs(wd, exist_ok=True)
+    exe = os.path.join(wd, 'prog')
+    cmd = ['gcc', '-O1', '-g', '-w'] + ['-D' + d for d in defines] + ['-I' + REPO + '/include', '-I' + REPO + '/src',
+           os.path.join(VERIF, 'harness', src)] + [os.path.join(REPO, 'src', f) for f in extra_sources] + ['-o', exe, '-lpthread']
+    p = subprocess.run(cmd, stdout=subprocess.PIPE, stderr=subprocess.STDOUT)
+    if p.returncode != 0:
+        return 'error', 'native build failed:\n' + p.stdout.decode()[-2000:]
+    try:
+        p = subprocess.run([exe], stdout=subprocess.PIPE, stderr=subprocess.STDOUT, timeout=timeout)
+    except subprocess.TimeoutExpired:
+        return 'reproduced', 'native program %s did not terminate within %d s' % (src, timeout)
+    out = p.stdout.decode('utf-8', 'replace')
+    if p.returncode == 0:
+        return 'not-reproduced', out[-1500:]
+    return 'reproduced', 'native program %s: exit %d%s\n%s' % (src, p.returncode, ' (killed by signal %d)' % -p.returncode if p.returncode < 0 else '', out[-1500:])
